@@ -76,8 +76,15 @@ def make_spec(order):
                 tag = None
                 if op[0] in (50, 51) and len(op[1]) > max(order) and all(op[1][x] == 0 for x in order):
                     tag = KNOWN_EMPTY_KEY
-                what = "decision" if op[0] in (50, 51) else ("management result / policy" if op[0] < 50 else "query result")
+                what = "decision" if op[0] in (50, 51) else ("management result / policy" if op[0] < 50 else
+                                                              "batch_enforce" if op[0] == 71 else "query result")
                 return [(i, f"FastEnforcer and Enforcer differ ({what})", tag)]
+        if any(op[0] == 71 for op in ops):
+            # batch_enforce = enforce position by position, on either enforcer
+            for who, ob in (("FastEnforcer", fobs), ("Enforcer", obs)):
+                v = mgmt.batch_spec(ops, ob)
+                if v:
+                    return [(v[0][0], f"{who}: {v[0][1]}", None)]
         return []
     spec_check.case_extra = dict(cache_key_order=list(order))
     return spec_check
@@ -132,6 +139,45 @@ def run_differential(chk, n):
             cases.append((rows, True, ops, make_spec(order)))
         mgmt.run_cases(chk, kind, cases, None, label=f"random-{kn}")
         chk.extra.setdefault("strata", {})[f"differential_{kn}"] = dict(histories=len(cases), key_orders=orders)
+    run_batch(chk, max(20, n // 2))
+
+
+def run_batch(chk, n):
+    """batch_enforce: histories whose decisions are asked through batch_enforce, the batch containing the same request
+    at several positions (and, sometimes, a request too short for the key positions); each batch is preceded by one
+    enforce per distinct request.  Fast = plain call by call, and on both batch_enforce = enforce position by position.
+    (batch_enforce is not part of the Mgmt model: no model comparison here.)"""
+    rng = chk.rng
+    for kn in ("acl", "acl_deny", "rbac", "rbac_deny"):
+        kind = mgmt.KINDS[kn]
+        orders = key_orders(kind)
+        uni = mgmt.Universe(kind)
+        reqs = uni.requests()
+        cases, nb, nrep = [], 0, 0
+        for i in range(n):
+            order = orders[i % len(orders)]
+            g = mgmt.Gen(rng, kind, dict(W, query=0, probe=0, load=0, clear=0))
+            rows = g.rows(rng.randint(1, 8))
+            ops = []
+            for _ in range(rng.randint(1, 4)):
+                for _ in range(rng.randint(0, 4)):
+                    ops.extend(g.op())
+                if rng.random() < 0.12:
+                    ops.append((38, rng.random() < 0.5))
+                blk = mgmt.batch_block(rng, reqs)
+                if rng.random() < 0.1:          # a request that does not reach a key position (raises on both)
+                    short = list(rng.choice(reqs))[:min(order)]
+                    blk = blk[:-1] + [(50, short), (71, blk[-1][1] + [short])]
+                elif rng.random() < 0.25:       # the whole universe, every request twice, in two different orders
+                    twice = [list(r) for r in reqs] + [list(r) for r in rng.sample(reqs, len(reqs))]
+                    blk = [(50, list(r)) for r in reqs] + [(71, twice)]
+                ops.extend(blk)
+                nb += 1
+                nrep += len(blk[-1][1]) - len({tuple(r) for r in blk[-1][1]})
+            cases.append((rows, True, ops, make_spec(order)))
+        mgmt.run_cases(chk, kind, cases, None, label=f"batch-{kn}", compare_model=False)
+        chk.extra.setdefault("strata", {})[f"batch_enforce_{kn}"] = dict(histories=len(cases), batches=nb,
+                                                                         repeated_positions=nrep, key_orders=orders)
 
 
 # ============================================================================ A: the container
